@@ -41,7 +41,8 @@ ACCESSORS = {
     'roStoryReplace': {'story': T, 'stories': C},
     'roItemReplace': {'story': SR, 'item': T, 'items': C},
     'roMetadataReplace': {'ro_slug': 'slug'},
-    'roReplace': {'ro_slug': 'slug'},
+    'roReplace': {'ro_slug': 'slug', 'stories': 'ro-stories'},
+    'roCreate': {'ro_slug': 'slug', 'stories': 'ro-stories'},
     'roReadyToAir': {},
     'roDelete': {},
     'EAStoryReplace': {'story': T, 'stories': C},
@@ -73,7 +74,7 @@ def check_message(s, doc, pretty, mo=None, phase='fresh'):
     except ET.ParseError:
         return
     m = interpret(root)
-    if m.kind is None or m.kind == 'roCreate':
+    if m.kind is None or getattr(m, 'el', None) is None:
         return
     if mo is None:
         try:
@@ -131,6 +132,13 @@ def check_message(s, doc, pretty, mo=None, phase='fresh'):
                 got = id_of(val)
                 ok = got == want and canon(val.xml) == converted_story_canon(m.el)
                 shape = m.story_ref[0]
+            elif what == 'ro-stories':
+                carried = [c for c in m.el if c.tag == 'story']
+                want = [sid(c) for c in carried]
+                got = [id_of(v) for v in val]
+                ok = got == want and isinstance(val, (list, tuple)) and \
+                    all(canon(v.xml) == canon(c) for v, c in zip(val, carried))
+                shape = 'n=%d' % min(len(want), 4)
             elif what == 'slug':
                 el = m.el.find('roSlug')
                 want = None if el is None else el.text
@@ -227,6 +235,9 @@ def run(s):
         for kind, shapes, kw in gen.shape_product(rng, state, ids, pool):
             pretty = rng.random() < 0.5
             check_message(s, B.msg_doc(kind, 7, pretty=pretty, **kw), pretty)
+        # the roCreate itself (it is a message too), under several timing mixes
+        for tm in ('any', 'any', 'none', 'timed'):
+            check_message(s, gen.rand_ro(rng, n_stories=rng.randint(0, 6), pool=pool, timing=tm), False)
         for kind in B.ALL_KINDS:
             for j in range(3):
                 pretty = (j % 2 == 0)
